@@ -45,12 +45,16 @@ var rewriteShapes = []string{
 	`(?>x(?:hi|there|hello))`, `(?>abc|abd|aec|abf)`, `(?i:abc|abd)`, `(abc|abd)\1`, `(?<=abc|abd)e`, `(?<=cba|dba)e`,
 	// balancing groups: the close fails while the popped group is empty and the matcher backtracks into the
 	// contents, so nothing inside is "at the end" (Properties/C05.v C05_R2_balancing_capture_refuted; fixed in 7e695b7)
+	// shapes for the mutation tests: loop-led alternation branches (prefix extraction must skip variable-count loops),
+	// bounded loops in front (no bump-along marker), atomic alternations where a later branch is a prefix of an earlier one's sibling
+	`a*a|a*b`, `a+b|a+c`, `[ab]*a|[ab]*c`, `a{2}b|a{2}c`, `a*?b|a*?c`, `(?>a*a|a*b)`, `a{1,2}b`, `a{1,3}b`, `[ab]{1,2}c`, `a{0,2}?b`,
+	`(?>x|ab|a)b?`, `(?>xy|ab|a)b?`, `(?>hi|hello|he|there)l?`, `(?>b|ab|a|abc)c?`,
 	`(?<a-b>x|(?<b>x))`, `(?=(?<a-b>x|(?<b>x)))x`, `a(?<a-b>(?<b>x)*?|x)`, `(?>(?<a-b>x*?|(?<b>x)))`, `(?<b>a)?(?<a-b>x|(?<b>x))c?`, `(?<a-b>(?:x|(?<b>x))+?)`, `(?<b>a)(?<-b>x*)x`,
 }
 
 // legGates: result(normal) == result(rewrite family switched off), on the real engine and on the reference semantics.
 func legGates(c *Ctx) {
-	c.Rule("patterns biased to the rewrite shapes (loop followed by X, alternations with shared prefixes, nested atomic groups, lookarounds incl. lookbehind, conditionals) + random ASTs + harvested patterns, x options; compiled normally and with each rewrite family switched off (hook gates 1,2,4,8,16 and all 31); compared on every string up to length 4 over the pattern alphabet (sampled when large) x every start offset plus random longer strings: real search and accelerator-free scan must agree between the two compilations; model: Spec.find on the exported tree with rewrites off must equal the engine's result (the tree with rewrites on is covered by leg c01-sem); non-trivial = the two exported trees differ (a rewrite fired) and a match exists (distinct by pattern,options,gate,input,start)")
+	c.Rule("patterns biased to the rewrite shapes (loop followed by X, alternations with shared prefixes, nested atomic groups, lookarounds incl. lookbehind, conditionals) + random ASTs + harvested patterns, x options; compiled normally and with each rewrite family switched off (hook gates 1,2,4,8,16 and all 31); compared on every string up to length 4 over the pattern alphabet (sampled when large) x every start offset plus random longer strings plus, when the two trees differ, every string of length 4-5 (6) over the pattern's first two letters: real search and accelerator-free scan must agree between the two compilations; model: Spec.find on the exported tree with rewrites off must equal the engine's result (the tree with rewrites on is covered by leg c01-sem); non-trivial = the two exported trees differ (a rewrite fired) and a match exists (distinct by pattern,options,gate,input,start)")
 	var pats []patCase
 	for _, s := range rewriteShapes {
 		for _, o := range []Opts{{}, {I: true}, {S: true}, {M: true}, {RTL: true}} {
@@ -109,12 +113,38 @@ func legGates(c *Ctx) {
 			for k := 0; k < 10; k++ {
 				inputs = append(inputs, randString(c.Rng, al, 10))
 			}
+			// every string up to length 5 (6) over the first two letters of the pattern: long enough to run a
+			// bounded loop to its maximum and still have loop characters left (bump-along), always included
+			two := []rune{}
+			for _, ch := range p.pat {
+				if ch >= 'a' && ch <= 'z' && len(two) < 2 && !containsRune(two, ch) {
+					two = append(two, ch)
+				}
+			}
+			for _, ch := range []rune{'a', 'b'} {
+				if len(two) < 2 && !containsRune(two, ch) {
+					two = append(two, ch)
+				}
+			}
+			nDirected := 0
+			if differs {
+				allStrings(two, c.N(5, 6), func(s []rune) {
+					if len(s) > maxLen {
+						inputs = append(inputs, append([]rune{}, s...))
+						nDirected++
+					}
+				})
+			}
 			budget := c.N(90, 500)
 			for idx, in := range inputs {
-				if idx > 20 && len(inputs) > budget && c.Rng.Intn(len(inputs)) >= budget {
+				if idx > 20 && idx < len(inputs)-nDirected && len(inputs) > budget && c.Rng.Intn(len(inputs)) >= budget {
 					continue
 				}
+				directed := idx >= len(inputs)-nDirected
 				for start := 0; start <= len(in); start++ {
+					if directed && start > 0 {
+						break // the directed strings are about what the scan does from the left edge
+					}
 					if start > 0 && start < len(in) && c.Rng.Chance(60) {
 						continue
 					}
@@ -135,7 +165,7 @@ func legGates(c *Ctx) {
 						cs.Direct = fmt.Sprintf("accelerator-free scan with rewrites on returned %s, with the rewrite family off %s", matchStr(n1), matchStr(n2))
 					}
 					// reference semantics on the un-rewritten tree
-					if differs && c.Rng.Chance(50) {
+					if differs && c.Rng.Chance(50) && (!directed || c.Rng.Chance(25)) {
 						cs.ModelLeg = 103
 						cs.ModelIn = append(append(encEnv(in, start, p.o, offWire.Sets, offWire.Slots), offWire.Words...), b2i(p.o.RTL), int64(start), -1, semFuel)
 						cs.ImplOut = encMatch(a1, nil)
